@@ -88,9 +88,7 @@ WEXPORT uint64_t w_helper(uint32_t fn, uint64_t a) {
 //      (raw[0..sizeof)), and the value the operation returned (as a bit pattern) ----
 enum {
   OP_CTOR = 0, OP_ASSIGN, OP_STORE_LOAD, OP_RAW, OP_ADD, OP_SUB, OP_MUL, OP_DIV, OP_MOD, OP_AND, OP_OR, OP_XOR, OP_SHL, OP_SHR,
-  OP_PREINC, OP_POSTINC, OP_PREDEC, OP_POSTDEC, OP_COPY,
-  // compound operators with an `int` right-hand side (template parameter R = int, different from the exposed type)
-  OP_ADD_I = 20, OP_SUB_I, OP_AND_I, OP_OR_I, OP_XOR_I, OP_SHL_I, OP_SHR_I };
+  OP_PREINC, OP_POSTINC, OP_PREDEC, OP_POSTDEC, OP_COPY };
 
 template <typename W, typename T, typename S>
 static inline int64_t wrapper_op(uint32_t op, uint64_t v_bits, uint64_t d_bits, uint8_t* raw, uint64_t* ret) {
@@ -98,7 +96,6 @@ static inline int64_t wrapper_op(uint32_t op, uint64_t v_bits, uint64_t d_bits, 
   static_assert(sizeof(S) == sizeof(T), "stored representation has the width of the exposed type");
   static_assert(alignof(W) == 1, "wrapper is packed");
   T v = from_bits<T>(v_bits), d = from_bits<T>(d_bits);
-  const int di = static_cast<int>(static_cast<uint32_t>(d_bits)); // the operand as a plain int (OP_*_I)
   W w(v);
   int64_t rc = 0;
   switch (op) {
@@ -124,13 +121,6 @@ static inline int64_t wrapper_op(uint32_t op, uint64_t v_bits, uint64_t d_bits, 
           case OP_XOR: *ret = to_bits<T>(static_cast<T>(w ^= d)); break;
           case OP_SHL: *ret = to_bits<T>(static_cast<T>(w <<= d)); break;
           case OP_SHR: *ret = to_bits<T>(static_cast<T>(w >>= d)); break;
-          case OP_ADD_I: *ret = to_bits<T>(static_cast<T>(w += di)); break;
-          case OP_SUB_I: *ret = to_bits<T>(static_cast<T>(w -= di)); break;
-          case OP_AND_I: *ret = to_bits<T>(static_cast<T>(w &= di)); break;
-          case OP_OR_I: *ret = to_bits<T>(static_cast<T>(w |= di)); break;
-          case OP_XOR_I: *ret = to_bits<T>(static_cast<T>(w ^= di)); break;
-          case OP_SHL_I: *ret = to_bits<T>(static_cast<T>(w <<= di)); break;
-          case OP_SHR_I: *ret = to_bits<T>(static_cast<T>(w >>= di)); break;
           default: rc = W_CAPACITY;
         }
       } else {
@@ -152,6 +142,65 @@ DEF3(uint64_t, uint64_t, uint64_t)
 DEF3(int64_t, int64_t, int64_t)
 DEF3(float, float, uint32_t)
 DEF3(double, double, uint64_t)
+
+// ---- compound operators with a right-hand side of a type R different from the exposed type T (the operators are
+//      templates over R): object initialised with v, ONE `w op= (R)d`; rt selects R: 0 int32_t, 1 uint32_t, 2 int64_t,
+//      3 uint64_t, 4 float, 5 double (d carries the operand's bit pattern) ----
+template <typename W, typename T, typename R>
+static inline int64_t mixed_op(uint32_t op, uint64_t v_bits, uint64_t d_bits, uint8_t* raw, uint64_t* ret) {
+  T v = from_bits<T>(v_bits);
+  R d = from_bits<R>(d_bits);
+  W w(v);
+  int64_t rc = 0;
+  switch (op) {
+    case OP_ADD: *ret = to_bits<T>(static_cast<T>(w += d)); break;
+    case OP_SUB: *ret = to_bits<T>(static_cast<T>(w -= d)); break;
+    case OP_MUL: *ret = to_bits<T>(static_cast<T>(w *= d)); break;
+    case OP_DIV: *ret = to_bits<T>(static_cast<T>(w /= d)); break;
+    default:
+      if constexpr (std::is_integral_v<T> && std::is_integral_v<R>) {
+        switch (op) {
+          case OP_MOD: *ret = to_bits<T>(static_cast<T>(w %= d)); break;
+          case OP_AND: *ret = to_bits<T>(static_cast<T>(w &= d)); break;
+          case OP_OR: *ret = to_bits<T>(static_cast<T>(w |= d)); break;
+          case OP_XOR: *ret = to_bits<T>(static_cast<T>(w ^= d)); break;
+          case OP_SHL: *ret = to_bits<T>(static_cast<T>(w <<= d)); break;
+          case OP_SHR: *ret = to_bits<T>(static_cast<T>(w >>= d)); break;
+          default: rc = W_CAPACITY;
+        }
+      } else {
+        rc = W_CAPACITY;
+      }
+  }
+  memcpy(raw, &w, sizeof(W));
+  return rc;
+}
+template <typename W, typename T>
+static inline int64_t mixed_dispatch(uint32_t op, uint32_t rt, uint64_t v, uint64_t d, uint8_t* raw, uint64_t* ret) {
+  switch (rt) {
+    case 0: return mixed_op<W, T, int32_t>(op, v, d, raw, ret);
+    case 1: return mixed_op<W, T, uint32_t>(op, v, d, raw, ret);
+    case 2: return mixed_op<W, T, int64_t>(op, v, d, raw, ret);
+    case 3: return mixed_op<W, T, uint64_t>(op, v, d, raw, ret);
+    default:
+      if constexpr (std::is_floating_point_v<T>) { // floating operands only on the floating wrappers
+        if (rt == 4) return mixed_op<W, T, float>(op, v, d, raw, ret);
+        if (rt == 5) return mixed_op<W, T, double>(op, v, d, raw, ret);
+      }
+      return W_CAPACITY;
+  }
+}
+#define DEFM(W, T) \
+  WEXPORT int64_t w_mixed_##W(uint32_t op, uint32_t rt, uint64_t v, uint64_t d, uint8_t* raw, uint64_t* ret) { return mixed_dispatch<W, T>(op, rt, v, d, raw, ret); }
+#define DEFM3(sfx, T) DEFM(le_##sfx, T) DEFM(be_##sfx, T) DEFM(re_##sfx, T)
+DEFM3(uint16_t, uint16_t)
+DEFM3(int16_t, int16_t)
+DEFM3(uint32_t, uint32_t)
+DEFM3(int32_t, int32_t)
+DEFM3(uint64_t, uint64_t)
+DEFM3(int64_t, int64_t)
+DEFM3(float, float)
+DEFM3(double, double)
 
 // a wrapper embedded in a packed record keeps its size and position (layout claim "always occupies exactly sizeof(T) bytes")
 struct Rec {
